@@ -183,7 +183,6 @@ def _who_and_validation(ctx: Ctx) -> None:
         ctx.check(all(worst[mr] <= mr + 1 for mr in worst), "RF-BOUND", "redirects-bounded", rfr, loop,
                   ok=f"worst-case requests per logical fetch for max_redirects 0/1/5 = {worst[0]}/{worst[1]}/{worst[5]} (<= max_redirects + 1)",
                   bad=f"with every response a redirect, {worst} requests are issued for max_redirects 0/1/5: more than max_redirects redirects are followed")
-        ctx.check(all(worst[mr] >= 1 for mr in worst), "RF-BOUND", "initial-request-always-issued", rfr, loop, ok="the initial request is issued even with max_redirects=0", bad="with max_redirects=0 no request is issued at all")
 
     # _validate_url: validator invoked, rejection cannot return
     vcfg = cfg_of(val.node)
@@ -280,7 +279,7 @@ class _Content:
             yield ch
 
     def iter_any(self):
-        return self.iter_chunked(1 << 60)
+        return self.iter_chunked(65536)  # aiohttp hands out what its (bounded) stream buffer holds
 
 
 class _Resp:
@@ -297,7 +296,7 @@ class _Cfg:
         self.__dict__.update(kw)
 
 
-CHUNK_LIMIT = 1 << 20  # "a bounded chunk": any constant read size up to 1 MiB is accepted
+CHUNK_LIMIT = 16 << 20  # "a bounded chunk": any read size up to 16 MiB that does not scale with the configured cap is accepted
 
 
 def _model_readers(ctx: Ctx, it: Interp) -> None:
@@ -315,8 +314,10 @@ def _model_readers(ctx: Ctx, it: Interp) -> None:
     # ---- plain GET body
     bad: dict[str, str] = {}
     runs = 0
-    for cap in (10, 200_000):
+    for cap in (10, 200_000, 1 << 40):
         for ln in sorted({0, 1, cap - 1, cap, cap + 1, cap + 70_000, 3 * 65536 + 5} - {-1}):
+            if ln > 480_000:
+                continue  # (the huge cap only checks that the read size does not scale with the cap)
             for short in (None, 7 if cap < 100 else 50_000):
                 resp = _Resp(body(ln), short, cap + 2 * CHUNK_LIMIT)
                 cfgv = _Cfg(max_fetch_bytes=cap)
@@ -345,7 +346,7 @@ def _model_readers(ctx: Ctx, it: Interp) -> None:
     runs = 0
     cases = [(e, c, ln, sh) for e in (1, 5, 8) for c in (4, 8, 100) for ln in range(0, 13) for sh in (None, 3)]
     cases += [(200_000, 1_000_000, ln, sh) for ln in (199_999, 200_000, 200_001, 400_000) for sh in (None, 50_000)]
-    cases += [(300_000, 250_000, 300_000, None), (300_000, 250_000, 250_000, None)]
+    cases += [(300_000, 250_000, 300_000, None), (300_000, 250_000, 250_000, None), (1 << 40, 1 << 41, 1000, None)]
     for e, c, ln, sh in cases:
         resp = _Resp(body(ln), sh, min(e, c) + 64)
         runs += 1
